@@ -42,6 +42,9 @@ type KeySpec struct {
 	// BadConfig: the entry's config does not parse (cut short): the library has
 	// to leave it aside.
 	BadConfig bool `json:"bad_config,omitempty"`
+	// Empty (with BadConfig): the entry is a zero Key (a placeholder in a
+	// fixed-size list, a slot whose file failed to load).
+	Empty bool `json:"empty,omitempty"`
 	// BadPriv: the config parses, the private key that goes with it does not.
 	BadPriv bool `json:"bad_priv,omitempty"`
 }
@@ -52,6 +55,9 @@ func (k KeySpec) material() (priv, pub, cfg []byte) {
 		g.BadPriv = false
 		priv, pub, cfg = g.material()
 		return priv[:len(priv)-1], pub, cfg
+	}
+	if k.BadConfig && k.Empty {
+		return nil, nil, nil
 	}
 	if k.BadConfig {
 		g := k
@@ -122,13 +128,25 @@ func splitKeyOptions(keys []ech.Key) []ech.Option {
 	if len(keys) < 2 {
 		return []ech.Option{ech.WithKeys(keys)}
 	}
-	// deterministic split derived from the key material itself
-	cut := 1 + int(keys[0].Config[len(keys[0].Config)/2])%(len(keys)-1)
-	if keys[0].PrivateKey[0]%3 == 0 {
+	// deterministic split derived from the key material itself (of the first
+	// entry that has any)
+	k0 := -1
+	for i := range keys {
+		if len(keys[i].Config) > 0 && len(keys[i].PrivateKey) > 1 {
+			k0 = i
+			break
+		}
+	}
+	if k0 < 0 {
+		return []ech.Option{ech.WithKeys(keys)}
+	}
+	ref := keys[k0]
+	cut := 1 + int(ref.Config[len(ref.Config)/2])%(len(keys)-1)
+	if ref.PrivateKey[0]%3 == 0 {
 		return []ech.Option{ech.WithKeys(keys)}
 	}
 	opts := []ech.Option{ech.WithKeys(keys[:cut]), ech.WithKeys(keys[cut:])}
-	if len(keys[cut:]) > 1 && keys[0].PrivateKey[1]%2 == 0 {
+	if len(keys[cut:]) > 1 && ref.PrivateKey[1]%2 == 0 {
 		opts = []ech.Option{ech.WithKeys(keys[:cut]), ech.WithKeys(keys[cut : cut+1]), ech.WithKeys(keys[cut+1:])}
 	}
 	return opts
